@@ -6,7 +6,7 @@
     [iso g h] = some map injective on the nodes of g relabels g into h up to [geq]. *)
 From Coq Require Import List NArith ZArith Bool Arith Permutation.
 From SK Require Import lib.IRSortKeys lib.IRCore lib.IRSearch model.C18_Model proof.C18_Order proof.C18_Spec
-  proof.C18_Graph proof.C18_Canon proof.C18_Equiv proof.C18_Label proof.C18_Aut proof.C18_Invariant proof.C18_Wf proof.C18_Count proof.C18_View proof.C18_Examples.
+  proof.C18_Graph proof.C18_Canon proof.C18_Equiv proof.C18_Label proof.C18_Aut proof.C18_Invariant proof.C18_Wf proof.C18_Count proof.C18_View proof.C18_Vf2 proof.C18_Vf2Count proof.C18_Examples.
 From SK Require lib.IRInst.
 Import ListNotations.
 
@@ -136,3 +136,18 @@ Theorem C18_view_wf : forall (bip st : bool) (n : net),
   wf (view bip st n) /\ kinds_ok (view bip st n) /\ arcs_ok (view bip st n).
 Proof. exact view_GI. Qed.
 Print Assumptions C18_view_wf.
+
+(** Clause 4 for CRNAutomorphism (VF2).  VF2 itself (networkx DiGraphMatcher.isomorphisms_iter with node_match on kind and
+    edge_match on role / stoich) is outside the model; the explicit premise is that it returns as many mappings as the
+    model's reference enumerator [auts] (compared on every correspondence case).  Then: [auts g] is a duplicate-free list of
+    assignments (along the assignment order [aut_order g], a permutation of the nodes), each assignment is a
+    structure-preserving self-map and every such self-map occurs; and the count equals the canonicaliser's count. *)
+Theorem C18_vf2_count : forall (g : vgraph) (lab p : list N) (vf2_count : nat),
+  wf g -> kinds_ok g -> arcs_ok g -> fst (canon_search g) = Some (lab, p) ->
+  vf2_count = length (auts g) ->
+  NoDup (auts g) /\
+  (forall s, is_aut g s -> In (rev (combine (aut_order g) (map s (aut_order g)))) (auts g)) /\
+  (forall m, In m (auts g) -> exists s, is_aut g s /\ m = rev (combine (aut_order g) (map s (aut_order g)))) /\
+  vf2_count = length (min_leaves g).
+Proof. exact vf2_count. Qed.
+Print Assumptions C18_vf2_count.
